@@ -88,4 +88,31 @@ Proof.
   rewrite (massive_count_iff all sub Hna Hns Hi), (momentum_spanning_iff ext sub Hns). tauto.
 Qed.
 
+(* ---------- monotonicity: a subset of a non-spanning set is not spanning ---------- *)
+Lemma touches_all_mono (ext : list N) (S S' : list ie) : incl S S' -> touches_all ext S -> touches_all ext S'.
+Proof.
+  intros Hi [e0 [He0 Hall]]. exists e0. split; [apply Hi, He0|].
+  intros v Hv. destruct (Hall v Hv) as [e [He [Hc Hcv]]].
+  exists e. split; [apply Hi, He|]. split; [apply (conn_incl S S' e0 e Hi Hc)|exact Hcv].
+Qed.
+
+Lemma sub_edges_incl (edges : list (edge C)) (s s' : sid) :
+  (forall e, has_edge s e = true -> has_edge s' e = true) -> incl (sub_edges edges s) (sub_edges edges s').
+Proof.
+  intros H p Hp. unfold sub_edges in *. apply filter_In in Hp. apply filter_In.
+  split; [tauto|apply H; tauto].
+Qed.
+
+Theorem spanning_monotone (edges : list (edge C)) (ext : list N) (s s' : sid) :
+  (forall e, has_edge s e = true -> has_edge s' e = true) ->
+  let nm := length (filter (fun e => e_massive e) edges) in
+  is_mass_momentum_spanning nm ext (sub_edges edges s) = true ->
+  is_mass_momentum_spanning nm ext (sub_edges edges s') = true.
+Proof.
+  intros Hsub nm H. apply spanning_semantics in H. apply spanning_semantics.
+  destruct H as [Hm Ht]. pose proof (sub_edges_incl edges s s' Hsub) as Hi. split.
+  - intros p Hp Hmass. apply Hi. apply Hm; assumption.
+  - apply (touches_all_mono ext _ _ Hi Ht).
+Qed.
+
 End Span.
